@@ -6,7 +6,8 @@ import (
 	"github.com/gebn/bmc/pkg/ipmi"
 )
 
-// C18 (session lifecycle): one session open (succeeding, or failing because the BMC holds
+// C18 (session lifecycle): one session open (succeeding, or failing before anything is sent,
+// during cipher suite discovery, because the BMC holds
 // another password, or because a handshake reply is lost) followed, when it succeeded, by
 // Close with any outcome (normal, refused with a completion code, reply lost): open
 // attempts +1, open failures +1 iff the open failed, and the open-sessions gauge is 1
@@ -16,14 +17,25 @@ func VerifC18_SessionLifecycle() {
 	s := vNewSessionless(ft)
 	password := vBytes(8)
 	bmcPassword := append([]byte{}, password...)
-	mode := vChoice(4) // 0 conforming BMC, 1 wrong password, 2 a handshake reply is lost, 3 a suite the BMC confirms but the library cannot use
+	// 0 conforming BMC, 1 wrong password, 2 a handshake reply is lost, 3 a suite the BMC
+	// confirms but the library cannot use, 4 a suite with None (refused before anything is
+	// sent), 5 two acceptable suites of which the BMC advertises none (discovery fails)
+	mode := vChoice(6)
 	suite := ipmi.CipherSuite3
+	if mode == 4 {
+		suite.IntegrityAlgorithm = ipmi.IntegrityAlgorithmNone
+	}
+	noSuites := &refSuiteBMC{}
 	if mode == 3 {
 		if vBool() {
 			suite.IntegrityAlgorithm = ipmi.IntegrityAlgorithm(3) // MD5-128 (not implemented by the library)
 		} else {
 			suite.ConfidentialityAlgorithm = ipmi.ConfidentialityAlgorithm(2) // xRC4-128
 		}
+	}
+	suites := []ipmi.CipherSuite{suite}
+	if mode == 5 {
+		suites = []ipmi.CipherSuite{ipmi.CipherSuite17, ipmi.CipherSuite3}
 	}
 	if mode == 1 {
 		x := vByte()
@@ -53,11 +65,14 @@ func VerifC18_SessionLifecycle() {
 			cancel()
 			return nil, vErrLost
 		}
+		if mode == 5 && len(req) > 5 && req[5] == 0x00 {
+			return noSuites.handle(req), nil // Get Channel Cipher Suites: an empty list
+		}
 		step++
 		return bmc.handle(req), nil
 	}
 	sess, err := s.NewV2Session(ctx, &V2SessionOpts{SessionOpts: SessionOpts{Password: password, MaxPrivilegeLevel: ipmi.PrivilegeLevelUser},
-		CipherSuites: []ipmi.CipherSuite{suite}})
+		CipherSuites: suites})
 	vAssert((err == nil) == (mode == 0), "c18-open-succeeds-exactly-against-the-conforming-bmc")
 	vAssert(vMetric("bmc_session_open_attempts_total") == 1, "c18-session-open-attempts-plus-one")
 	failed := 0
